@@ -34,6 +34,9 @@ type problem struct {
 type World struct {
 	Ltoc   []int   `json:"ltoc"`   // per layer digest id: TOC id (== blob id) or -1 (not eStargz)
 	Images [][]int `json:"images"` // per ref id: layer digest ids of the manifest
+	// per ref id, per layer index: the toc.digest annotation of the layer descriptor in the manifest:
+	// -1 (or missing) = none, 0..4 / 50.. / 100.. = the digest of that toc id (correct when it is the layer's own), 900 = not a digest
+	Ann [][]int `json:"ann,omitempty"`
 }
 
 // ---------------------------------------------------------------------------------------------
@@ -109,15 +112,30 @@ func refName(r int) string { return fmt.Sprintf("%s/img%d:latest", hostName, r) 
 
 // registry serves manifests/configs over a fake http.RoundTripper and blobs through a remote.Handler.
 type registry struct {
-	mu       sync.Mutex
-	w        World
-	manifest map[string][]byte // "img<r>" -> manifest bytes
-	mdigest  map[string]digest.Digest
-	content  map[digest.Digest][]byte // manifests + configs by digest
-	mfault   bool
-	bfault   map[digest.Digest]bool
-	injected map[digest.Digest]bool // blob faults actually delivered during the current op
-	fetches  int                    // manifest fetches served
+	mu                    sync.Mutex
+	w                     World
+	manifest              map[string][]byte // "img<r>" -> manifest bytes
+	mdigest               map[string]digest.Digest
+	content               map[digest.Digest][]byte // manifests + configs by digest
+	mfault                bool
+	bfault                map[digest.Digest]bool
+	injected              map[digest.Digest]bool // blob faults actually delivered during the current op
+	fetches               int                    // manifest fetches served
+	gateReached, gateOpen chan struct{}
+}
+
+// armGate makes the next blob request wait; returns (reached, open).
+func (g *registry) armGate() (<-chan struct{}, func()) {
+	g.mu.Lock()
+	defer g.mu.Unlock()
+	r, o := make(chan struct{}), make(chan struct{})
+	g.gateReached, g.gateOpen = r, o
+	return r, func() {
+		g.mu.Lock()
+		g.gateReached, g.gateOpen = nil, nil
+		g.mu.Unlock()
+		close(o)
+	}
 }
 
 func diffID(r, i int) digest.Digest { return digest.FromString(fmt.Sprintf("diffid-%d-%d", r, i)) }
@@ -133,7 +151,7 @@ func newRegistry(w World) *registry {
 		var descs []ocispec.Descriptor
 		for i, l := range ls {
 			img.RootFS.DiffIDs = append(img.RootFS.DiffIDs, diffID(r, i))
-			descs = append(descs, layerDesc(l))
+			descs = append(descs, annotate(layerDesc(l), annOf(w, r, i)))
 		}
 		cb, _ := json.Marshal(img)
 		cd := digest.FromBytes(cb)
@@ -153,11 +171,33 @@ func newRegistry(w World) *registry {
 	return g
 }
 
+func annOf(w World, r, i int) int {
+	if r < 0 || r >= len(w.Ann) || i >= len(w.Ann[r]) {
+		return -1
+	}
+	return w.Ann[r][i]
+}
+
+// annotate adds the toc.digest annotation an image builder would have put on the layer descriptor (possibly stale or wrong).
+func annotate(d ocispec.Descriptor, a int) ocispec.Descriptor {
+	switch {
+	case a < 0:
+	case a == 900:
+		d.Annotations = map[string]string{estargz.TOCJSONDigestAnnotation: "not-a-digest"}
+	default:
+		d.Annotations = map[string]string{estargz.TOCJSONDigestAnnotation: tocDigest(a).String()}
+	}
+	return d
+}
+
 func layerDesc(l int) ocispec.Descriptor {
 	return ocispec.Descriptor{MediaType: ocispec.MediaTypeImageLayerGzip, Digest: blobs[l].dgst, Size: int64(len(blobs[l].data))}
 }
 
 func (g *registry) RoundTrip(req *http.Request) (*http.Response, error) {
+	if err := req.Context().Err(); err != nil {
+		return nil, err // a real transport does not serve a cancelled request
+	}
 	g.mu.Lock()
 	defer g.mu.Unlock()
 	resp := func(code int, ct string, body []byte, dg digest.Digest) (*http.Response, error) {
@@ -221,6 +261,19 @@ func noHosts(reference.Spec) ([]docker.RegistryHost, error) {
 
 // Handle implements remote.Handler: serves layer blobs from memory, or fails when the script says so.
 func (g *registry) Handle(ctx context.Context, desc ocispec.Descriptor) (remote.Fetcher, int64, error) {
+	// gate: the first blob request after armGate() waits here until the harness lets it continue (the client
+	// abandons its lookup in the meantime); like a real registry client, a cancelled request fails
+	g.mu.Lock()
+	reached, open := g.gateReached, g.gateOpen
+	g.gateReached, g.gateOpen = nil, nil
+	g.mu.Unlock()
+	if reached != nil {
+		close(reached)
+		<-open
+	}
+	if err := ctx.Err(); err != nil {
+		return nil, 0, err
+	}
 	g.mu.Lock()
 	defer g.mu.Unlock()
 	if g.bfault[desc.Digest] {
@@ -521,6 +574,26 @@ func genWorld(r *hx.Rng) World {
 			ls = append(ls, l)
 		}
 		w.Images = append(w.Images, ls)
+		var an []int
+		for _, l := range ls {
+			a := -1
+			switch r.Pick(40, 30, 12, 6, 6, 6) {
+			case 1:
+				if w.Ltoc[l] >= 0 {
+					a = w.Ltoc[l] // correct
+				}
+			case 2:
+				a = r.Intn(nEsgz) // another layer's TOC digest (or, by chance, the right one)
+			case 3:
+				a = tocUnk0 + r.Intn(2) // stale: a digest no layer has
+			case 4:
+				a = tocAsLD + l // the layer digest
+			case 5:
+				a = 900 // malformed
+			}
+			an = append(an, a)
+		}
+		w.Ann = append(w.Ann, an)
 	}
 	return w
 }
